@@ -36,7 +36,7 @@ def P(pid, targets, bounded, text, note=None, level="proof", unverified=()):
 
 
 P("C01", [f"{UT}:rlencode", f"{CR}:index_pixels", f"{CR}:create_cooler", f"{CR}:create", f"{CR}:write_pixels", f"{TOP}:get",
-          f"{API}:pixels", f"{API}:Cooler.pixels"], "bounded/C01.py",
+          f"{API}:pixels", f"{API}:Cooler.pixels", f"{CR}:create_from_unordered"], "bounded/C01.py",
   "Proof core shared with C02 (index construction for every pixel column and chunking). create() itself is verified as a coordinator over a ghost operation log (every helper and h5py call replaced by a recording stub; 41 configurations of mode/append/root-or-nested target/check flags/input forms/single-cell append, symbolic paths, counts and symmetric flag): the caller's "
   "pixels are what is validated and streamed, once, into <group>/pixels; the callers' bins are what is written; columns "
   "are the ids followed by the requested value columns with the caller's dtypes overriding the defaults; assembly and "
@@ -90,18 +90,18 @@ P("C05", [f"{ING}:_sanitize_pixels", f"{UT}:get_binsize"], "bounded/C05.py",
   "assignment) and the loaders are covered by the bounded tier only (records on every bin edge through API, load, cload pairs, cload tabix).", level="other",
   unverified=["_sanitize_records (bin assignment)", "aggregate_records", "TabixAggregator.aggregate"])
 
-P("C06", [f"{RED}:merge_breakpoints", f"{RED}:CoolerMerger.__iter__"], "bounded/C06.py",
-  "Proof core: the merge-epoch partition (merge_breakpoints: bisect loop with invariant and variant, for k = 1,2,3 input indexes and every buffer size) ends exactly where every input is exhausted and is strictly increasing. Bounded stand-in for the rest (all small record multisets x partitions x orders x mergebuf x max_merge). The merge loop itself (CoolerMerger.__iter__, k = 1,2,3 inputs, merge_breakpoints applied by contract) is verified with the invariant starts[i] == index_i[P[t]]: each epoch reads from every input exactly the slice between two consecutive boundaries - cut only at row offsets, so a bin1 row is never split - every input with records in an epoch is read in it exactly once, inputs contribute in order, the epoch is the sorted groupby(bin1_id, bin2_id).aggregate(agg) of their concatenation, and at the end every input is read to its nnz: every input record is read exactly once for every buffer size.",
-  level="other", unverified=["create_from_unordered (sort pass / two-pass merge plan over temporary files)", "pandas concat / groupby / aggregate (assumed by the merge-loop stubs)"])
+P("C06", [f"{RED}:merge_breakpoints", f"{RED}:CoolerMerger.__iter__", f"{CR}:create_from_unordered"], "bounded/C06.py",
+  "Proof core: the merge-epoch partition (merge_breakpoints: bisect loop with invariant and variant, for k = 1,2,3 input indexes and every buffer size) ends exactly where every input is exhausted and is strictly increasing. Bounded stand-in for the rest (all small record multisets x partitions x orders x mergebuf x max_merge). The merge loop itself (CoolerMerger.__iter__, k = 1,2,3 inputs, merge_breakpoints applied by contract) is verified with the invariant starts[i] == index_i[P[t]]: each epoch reads from every input exactly the slice between two consecutive boundaries - cut only at row offsets, so a bin1 row is never split - every input with records in an epoch is read in it exactly once, inputs contribute in order, the epoch is the sorted groupby(bin1_id, bin2_id).aggregate(agg) of their concatenation, and at the end every input is read to its nnz: every input record is read exactly once for every buffer size. create_from_unordered itself (the external sort) is verified for EVERY number of chunks n, max_merge and buffer size with two loop invariants over structured ghost lists: the i-th chunk - and nothing else - is written in append mode to temporary collection i; when a first merge level is built its j-th group merges exactly the sort-pass collections edges[j]..edges[j+1]-1 in order, where edges runs from 0 to n without going back (the groups tile the chunks: none lost, none twice); ONE final merger over all collections of the last level, in order, with the caller's buffer and columns, is streamed into the caller's URI with the caller's mode; temporary files are created delete-on-close. An undecided or refuted clause is replayed by running the real function on real files over a family of chunk counts x max_merge against the in-memory aggregate.",
+  level="other", unverified=["pandas concat / groupby / aggregate (assumed by the merge-loop stubs)", "tempfile.NamedTemporaryFile deletion at garbage collection (bounded: directory listing after runs)", "numpy.linspace(dtype=int) (assumed: first = 0, last = n, non-decreasing)"])
 
 P("C07", [f"{RED}:merge_breakpoints", f"{RED}:CoolerMerger.__init__", f"{RED}:CoolerMerger.__iter__", f"{RED}:merge_coolers",
           f"{UT}:get_binsize", f"{ING}:_validate_pixels", f"{CR}:write_pixels"], "bounded/C07.py",
   "Proof core: merge_breakpoints (shared with C06); write_pixels (the append loop the merged stream goes through) is verified with ghost dataset contents for EVERY number of chunks and chunk lengths: each pixel column is the concatenation of the chunks in order, its length is the returned nnz, the returned total is the sum of the count column in the integer AND the float configuration (no truncation of float sums). The merge loop itself (CoolerMerger.__iter__, k = 1,2,3 inputs, merge_breakpoints applied by contract) is verified with the invariant starts[i] == index_i[P[t]]: each epoch reads from every input exactly the slice between two consecutive boundaries - cut only at row offsets, so a bin1 row is never split - every input with records in an epoch is read in it exactly once, inputs contribute in order, the epoch is the sorted groupby(bin1_id, bin2_id).aggregate(agg) of their concatenation, and at the end every input is read to its nnz: every input record is read exactly once for every buffer size. CoolerMerger.__init__ accepts the inputs iff they share the bin table (fixed size: same size and same chromosome names AND lengths as the first input; variable: same table row for row), and merge_coolers (k = 2,3) puts all inputs in order into one merger with the caller's buffer/columns/agg, creates the output from the first input's bins and assembly with that merger as stream, is symmetric iff all inputs are (mixed refused), requires every requested column in every input and gives it the caller's dtype or numpy.result_type over ALL inputs. Bounded stand-in for the rest (all small input families x mergebuf x orders x nestings x dtype limits).",
   level="other", unverified=["pandas concat / groupby-sum, table equality, numpy.result_type (assumed by the stubs)", "integer overflow inside pandas group-by sum (known finding)"])
 
-P("C08", [f"{RED}:_greedy_prune_partition", f"{RED}:CoolerCoarsener.__init__", f"{RED}:CoolerCoarsener._aggregate", f"{RED}:coarsen_cooler", f"{UT}:get_binsize"], "bounded/C08.py",
-  "Proof core: CoolerCoarsener.__init__ builds, for every chromosome layout, factor and chunk size, a pixel partition whose every edge is the offset of a coarse-row start (bin1_offset[chrom_offset[c] + g*factor]) or nnz (loop invariant with ghost witnesses; Cooler/GenomeSegmentation by assumed models), and _greedy_prune_partition keeps only values of that edge list, ordered, from 0 to nnz - so no coarse row is ever split across spans; get_binsize (which decides the re-binning path) is truthful (C20). Bounded stand-in for the rest (all small coolers x factors x chunk sizes x workers against a block-aggregate model). CoolerCoarsener._aggregate (where each fine pixel goes) is verified for every chunk, chromosome layout, bin size and factor k >= 2: for both ends of every pixel the new bin id is new_chrom_offset[c] + (fine_id - old_chrom_offset[c]) div k - the coarse bin containing the fine bin - on the fixed-width path (floor(start/(k*binsize)); nonlinear quotient/remainder lemma as hint) and on the variable-width path (searchsorted over the absolute starts of the coarse bins; hint chain), the rows read are exactly the span, and the chunk is grouped by the new key, sorted, and aggregated with the coarsener's functions.",
-  level="other", unverified=["CoolerCoarsener.__iter__ (batches over the worker map)", "pandas groupby/aggregate and the joined pixel selector (assumed by the _aggregate stubs)", "coarsen_bins (bin table construction; pandas groupby/apply)"])
+P("C08", [f"{RED}:_greedy_prune_partition", f"{RED}:CoolerCoarsener.__init__", f"{RED}:CoolerCoarsener._aggregate", f"{RED}:CoolerCoarsener.__iter__", f"{RED}:coarsen_cooler", f"{UT}:get_binsize"], "bounded/C08.py",
+  "Proof core: CoolerCoarsener.__init__ builds, for every chromosome layout, factor and chunk size, a pixel partition whose every edge is the offset of a coarse-row start (bin1_offset[chrom_offset[c] + g*factor]) or nnz (loop invariant with ghost witnesses; Cooler/GenomeSegmentation by assumed models), and _greedy_prune_partition keeps only values of that edge list, ordered, from 0 to nnz - so no coarse row is ever split across spans; get_binsize (which decides the re-binning path) is truthful (C20). Bounded stand-in for the rest (all small coolers x factors x chunk sizes x workers against a block-aggregate model). CoolerCoarsener._aggregate (where each fine pixel goes) is verified for every chunk, chromosome layout, bin size and factor k >= 2: for both ends of every pixel the new bin id is new_chrom_offset[c] + (fine_id - old_chrom_offset[c]) div k - the coarse bin containing the fine bin - on the fixed-width path (floor(start/(k*binsize)); nonlinear quotient/remainder lemma as hint) and on the variable-width path (searchsorted over the absolute starts of the coarse bins; hint chain), the rows read are exactly the span, and the chunk is grouped by the new key, sorted, and aggregated with the coarsener's functions. CoolerCoarsener.__iter__ (coordinator, 0..5 spans with symbolic edges, batch sizes 1..3): the spans are the consecutive edge pairs, handed to the worker map in consecutive batches, each exactly once, and the stream yields one chunk per span IN SPAN ORDER; the lock is held around a batch iff batchsize > 1 and always released.",
+  level="other", unverified=["the worker map (assumed: results in input order, as builtin map and Pool.map)", "pandas groupby/aggregate and the joined pixel selector (assumed by the _aggregate stubs)", "coarsen_bins (bin table construction; pandas groupby/apply)"])
 
 P("C09", [f"{RED}:get_multiplier_sequence", f"{RED}:zoomify_cooler", f"{RED}:coarsen_cooler"], "bounded/C09.py",
   "Proof core: the zoom plan (three loops with invariants and a variant): every non-base resolution is derived from the LARGEST smaller member dividing it with multiplier >= 2, a supplied base is never re-derived, and a non-derivable member is refused exactly. Bounded stand-in for the rest (plan level: all subsets of resolutions x bases; file level against direct coarsening). zoomify_cooler (coordinator, four concrete plans - chain, fan-out with an extra value column, two interleaved bases, base only - with symbolic file names, chunk size and options; the plan comes from get_multiplier_sequence's contract): the output is truncated exactly once and re-opened r+ afterwards, inputs are only read; every base level is a copy of its own input's chroms, bins, requested pixel columns, indexes and attributes under /resolutions/<binsize>; every planned non-base level is produced by exactly one coarsen_cooler call, in plan order, from the predecessor and with the factor the plan names, inside the output in r+ mode; base levels are never re-derived; the file is finally marked HDF5::MCOOL.",
